@@ -75,6 +75,21 @@ func c07Pairs(tier string) []c07Pair {
 	add("string-vs-bool", `F.S + true`, `F.S + "true"`)
 	add("string-vs-int", `F.S + 1 == "ab1"`, `F.S + "1" == "ab1"`)
 	add("bool-const", "F.B == true", "F.B == false")
+	// an integer literal N and the real literal N.0 are different constants wherever the language treats
+	// integers and reals differently (rendering in concatenation, %, bit operators, selectors, typed arguments)
+	add("int-vs-real", `F.S + 2`, `F.S + 2.0`)
+	add("int-vs-real", `F.S + 100000`, `F.S + 100000.0`)
+	add("int-vs-real", `F.S + 100`, `F.S + 1e2`)
+	add("int-vs-real", `F.S + -2`, `F.S + -2.0`)
+	add("int-vs-real", "F.I2 % 2", "F.I2 % 2.0")
+	add("int-vs-real", "F.I2 & 2", "F.I2 & 2.0")
+	add("int-vs-real", "F.Arr[1]", "F.Arr[1.0]")
+	add("int-vs-real", "F.Pick(0, 2)", "F.Pick(0, 2.0)")
+	add("int-vs-real", "F.Add(F.I, 2)", "F.Add(F.I, 2.0)")
+	add("int-vs-real", "F.I2 / 2", "F.I2 / 2.0")
+	add("int-vs-real-cond", `F.S + 2 == "ab2"`, `F.S + 2.0 == "ab2"`)
+	add("int-vs-real-cond", "F.I2 % 2 == 0", "F.I2 % 2.0 == 0")
+	add("int-vs-uint-spelling", "F.I == 010", "F.I == 10")
 	// negation forms
 	neg := []string{"F.B", "!F.B", "!(F.B)", "!!F.B", "!(!F.B)", "!(F.I == 1)", "F.I == 1", "!(F.I != 1)", "F.I != 1", "(F.B)", "(F.I == 1)", "((F.B))"}
 	for i := range neg {
@@ -426,5 +441,5 @@ func C07(rep *ev.Reporter, tier string) {
 		rep.Exhaustive = false
 		rep.Coverage["caps_hit"] = "time budget"
 	}
-	rep.Coverage["rule"] = "sibling pairs differing in exactly one place: constants (floats equal to 6 decimals, sign, exponent, int vs string/bool rendering, digits, hex vs decimal, strings differing in one char / case / containing quote, bracket, comma, arrow, strings imitating snapshot syntax), all 42 substitutions among the 7 arithmetic/bitwise and all 30 among the 6 comparison operators, && vs ||, 9 negation forms pairwise, operand order, grouping, selectors (index, key, computed), paths, argument order/splitting/count/nesting, method names; each pair built alone vs together in both textual orders, in one resource and in separate resources, and as a triple inside a larger shared expression; 5 fact states; plus sibling rules that differ only in the assignment TARGET (index, key, computed selector, field, nested field); plus two rules using the IDENTICAL expression (6 kinds: map entry, field, slice element, pointer field, sum, method call) in every pair of 7 roles (bare operand, bracketed, comparison in bracket, negated bracket, method argument, selector index) and 3 action roles while the first rule changes its value each cycle, 3 salience relations, every clone order of the instance and every rule order, judged in lockstep with the reference model. Differential oracle (no expected values): FetchMatchingRules membership and the sink value computed by Execute of each rule alone == together. Non-trivial: the reference evaluator certifies that the two siblings differ on at least one of the states."
+	rep.Coverage["rule"] = "sibling pairs differing in exactly one place: constants (floats equal to 6 decimals, sign, exponent, int vs string/bool rendering, integer N vs real N.0 in every position where the kinds behave differently, digits, hex vs decimal, strings differing in one char / case / containing quote, bracket, comma, arrow, strings imitating snapshot syntax), all 42 substitutions among the 7 arithmetic/bitwise and all 30 among the 6 comparison operators, && vs ||, 9 negation forms pairwise, operand order, grouping, selectors (index, key, computed), paths, argument order/splitting/count/nesting, method names; each pair built alone vs together in both textual orders, in one resource and in separate resources, and as a triple inside a larger shared expression; 5 fact states; plus sibling rules that differ only in the assignment TARGET (index, key, computed selector, field, nested field); plus two rules using the IDENTICAL expression (6 kinds: map entry, field, slice element, pointer field, sum, method call) in every pair of 7 roles (bare operand, bracketed, comparison in bracket, negated bracket, method argument, selector index) and 3 action roles while the first rule changes its value each cycle, 3 salience relations, every clone order of the instance and every rule order, judged in lockstep with the reference model. Differential oracle (no expected values): FetchMatchingRules membership and the sink value computed by Execute of each rule alone == together. Non-trivial: the reference evaluator certifies that the two siblings differ on at least one of the states."
 }
